@@ -1114,6 +1114,8 @@ class Div(X86Instruction):
     """
 
     reg1 = Operand("reg1", Register64, read=True)
+    implicit_uses = (rax, rdx)
+    implicit_defs = (rax, rdx)
     syntax = Syntax(["div", " ", reg1])
     tokens = [RexToken, OpcodeToken, ModRmToken]
     patterns = {"opcode": 0xF7, "reg": 6, "w": 1, "mod": 3}
@@ -1132,6 +1134,8 @@ class Idiv(X86Instruction):
     """
 
     reg1 = Operand("reg1", Register64, read=True)
+    implicit_uses = (rax, rdx)
+    implicit_defs = (rax, rdx)
     syntax = Syntax(["idiv", " ", reg1])
     tokens = [RexToken, OpcodeToken, ModRmToken]
     patterns = {"opcode": 0xF7, "reg": 7, "w": 1, "mod": 3}
@@ -1150,6 +1154,8 @@ class Div32(X86Instruction):
     """
 
     reg1 = Operand("reg1", Register32, read=True)
+    implicit_uses = (eax, edx)
+    implicit_defs = (eax, edx)
     syntax = Syntax(["div", " ", reg1])
     tokens = [RexToken, OpcodeToken, ModRmToken]
     patterns = {"opcode": 0xF7, "reg": 6, "w": 0, "mod": 3}
@@ -1168,6 +1174,8 @@ class Idiv32(X86Instruction):
     """
 
     reg1 = Operand("reg1", Register32, read=True)
+    implicit_uses = (eax, edx)
+    implicit_defs = (eax, edx)
     syntax = Syntax(["idiv", " ", reg1])
     tokens = [RexToken, OpcodeToken, ModRmToken]
     patterns = {"opcode": 0xF7, "reg": 7, "w": 0, "mod": 3}
@@ -1186,6 +1194,8 @@ class Div16(X86Instruction):
     """
 
     reg1 = Operand("reg1", Register16, read=True)
+    implicit_uses = (ax, dx)
+    implicit_defs = (ax, dx)
     syntax = Syntax(["div", " ", reg1])
     tokens = [PrefixToken, OpcodeToken, ModRmToken]
     patterns = {"opcode": 0xF7, "reg": 6, "prefix": 0x66, "mod": 3}
@@ -1203,6 +1213,8 @@ class Idiv16(X86Instruction):
     """
 
     reg1 = Operand("reg1", Register16, read=True)
+    implicit_uses = (ax, dx)
+    implicit_defs = (ax, dx)
     syntax = Syntax(["idiv", " ", reg1])
     tokens = [PrefixToken, OpcodeToken, ModRmToken]
     patterns = {"opcode": 0xF7, "reg": 7, "prefix": 0x66, "mod": 3}
